@@ -15,6 +15,7 @@ import (
 	"errors"
 	"fmt"
 	"hash/fnv"
+	"io"
 	"net"
 	"net/http"
 	"net/url"
@@ -230,9 +231,10 @@ const (
 	mAttData method = iota
 	mSubmit
 	mVersion
+	mProxy
 )
 
-var methodName = [...]string{"AttestationData", "SubmitAttestations", "NodeVersion"}
+var methodName = [...]string{"AttestationData", "SubmitAttestations", "NodeVersion", "Proxy"}
 
 type cancelMode int
 
@@ -430,6 +432,32 @@ func (s *stub) NodeVersion(ctx context.Context, _ *eth2api.NodeVersionOpts) (*et
 	return v.(*eth2api.Response[string]), nil
 }
 
+// Proxy: the node reads the request body (as an HTTP server does), then answers as scripted; its
+// response records which node answered and the body that node received.
+func (s *stub) Proxy(ctx context.Context, req *http.Request) (*http.Response, error) {
+	var got []byte
+	if req.Body != nil {
+		got, _ = io.ReadAll(req.Body)
+		_ = req.Body.Close()
+	}
+	v, err := s.serve(ctx, func(call *callRec) any {
+		return &http.Response{StatusCode: http.StatusOK, Header: http.Header{"X-Node": {fmt.Sprint(s.id)}, "X-Call": {fmt.Sprint(call.id)}, "X-Received-Body": {string(got)}, "X-Path": {req.URL.Path}}, Body: http.NoBody}
+	})
+	if err != nil {
+		return nil, err
+	}
+	return v.(*http.Response), nil
+}
+
+func proxyBody(call int) string {
+	return fmt.Sprintf("{\"call\":%d,\"payload\":\"%s\"}", call, strings.Repeat("x", 40+call))
+}
+
+func proxyIntact(r *http.Response, call, node int) bool {
+	return r != nil && r.StatusCode == http.StatusOK && r.Header.Get("X-Node") == fmt.Sprint(node) && r.Header.Get("X-Call") == fmt.Sprint(call) &&
+		r.Header.Get("X-Received-Body") == proxyBody(call) && r.Header.Get("X-Path") == fmt.Sprintf("/eth/v1/call/%d", call)
+}
+
 func (s *stub) SubmitAttestations(ctx context.Context, _ *eth2api.SubmitAttestationsOpts) error {
 	_, err := s.serve(ctx, func(*callRec) any { return nil })
 	return err
@@ -502,7 +530,7 @@ func (h *harn) caller(c *kernel.Ctx, multi eth2wrap.Client, call *callRec) {
 	if d := verifrt.Intn("w", 4); d > 0 {
 		verifrt.Sleep(time.Duration(d) * time.Millisecond)
 	}
-	call.m = method(verifrt.Intn("w", 3))
+	call.m = method(verifrt.Intn("w", 4))
 	for i := 0; i < h.nP+h.nF; i++ {
 		call.scripts = append(call.scripts, drawScript())
 	}
@@ -566,6 +594,13 @@ func (h *harn) caller(c *kernel.Ctx, multi eth2wrap.Client, call *callRec) {
 		res = result{val: r, err: err}
 	case mSubmit:
 		res = result{err: multi.SubmitAttestations(ctx, &eth2api.SubmitAttestationsOpts{})}
+	case mProxy:
+		req, rerr := http.NewRequestWithContext(ctx, http.MethodPost, fmt.Sprintf("http://charon/eth/v1/call/%d", call.id), strings.NewReader(proxyBody(call.id)))
+		if rerr != nil {
+			panic(rerr)
+		}
+		r, err := multi.Proxy(ctx, req)
+		res = result{val: r, err: err}
 	}
 	retT := verifrt.Now()
 	cancelFired := ctx.Err() != nil
@@ -733,6 +768,10 @@ func (h *harn) judge(c *kernel.Ctx, call *callRec, res result, retT time.Duratio
 				}
 			case mVersion:
 				if r, _ := res.val.(*eth2api.Response[string]); r != nil && r == iv.value && r.Data == versionStr(call.id, i) {
+					winner = i
+				}
+			case mProxy:
+				if r, _ := res.val.(*http.Response); r != nil && r == iv.value && proxyIntact(r, call.id, i) {
 					winner = i
 				}
 			}
